@@ -166,9 +166,11 @@ def finish(res, tier, level, explanation, assumptions, t0, extra_cov=None, rule_
     for (p, k), e in open_keys.items():
         if p == prop and k not in fired:
             print(f"NOTE: known finding no longer fires: property={prop} {k} (consider moving it to 'fixed')")
-    os.makedirs(os.path.join(VERIF, "reports"), exist_ok=True)
+    # self-tests on scratch copies redirect evidence/reports so that the committed evidence is never overwritten by them
+    out_root = os.environ.get("VERIF_OUT_DIR", VERIF)
+    os.makedirs(os.path.join(out_root, "reports"), exist_ok=True)
     for n, i in enumerate(viol):
-        path = os.path.join(VERIF, "reports", f"{prop}-{n}.json")
+        path = os.path.join(out_root, "reports", f"{prop}-{n}.json")
         with open(path, "w") as f:
             json.dump({"property": prop, **i.as_dict()}, f, indent=1)
         print(f"VIOLATION property={prop} replay={path}")
@@ -217,8 +219,8 @@ def finish(res, tier, level, explanation, assumptions, t0, extra_cov=None, rule_
         "wall_s": round(time.time() - t0, 3),
         "violations": len(viol),
     }
-    os.makedirs(os.path.join(VERIF, "evidence"), exist_ok=True)
-    with open(os.path.join(VERIF, "evidence", f"{prop}.json"), "w") as f:
+    os.makedirs(os.path.join(out_root, "evidence"), exist_ok=True)
+    with open(os.path.join(out_root, "evidence", f"{prop}.json"), "w") as f:
         json.dump(ev, f, indent=1)
     print(
         f"{prop}: {len(res.instances)} rule instances, {len(good)} held, {len(knownhits)} known findings, "
